@@ -436,6 +436,10 @@ func (st *State) doReturn(f *Frame, x *ssa.Return) bool {
 	}
 	// inlined frame: pop
 	st.frames = st.frames[:len(st.frames)-1]
+	if f.iter != nil {
+		st.iterReturn(f)
+		return true
+	}
 	caller := st.top()
 	if f.retTo != nil && !f.discard {
 		if v, ok := f.retTo.(ssa.Value); ok {
